@@ -360,20 +360,26 @@ class Complement(Constructor[CombinatorialClassType, CombinatorialObjectType]):
     def get_terms(
         self, parent_terms: Callable[[int], Terms], subterms: SubTerms, n: int
     ) -> Terms:
-        parent_terms_mapped: Terms = Counter()
+        # The subtraction is done with the parameters of the parent. Only what is
+        # left belongs to the counted child and can be mapped to its parameters
+        # (several parameters of the parent can map to the same parameter of the
+        # child, so the terms of the other children need not be mappable).
+        parent_terms_left: Terms = Counter()
         for param, value in subterms[0](n).items():
             if value:
-                parent_terms_mapped[self._parent_param_map(param)] += value
+                parent_terms_left[param] += value
         children_terms = subterms[1:]
         for child_terms, param_map in zip(children_terms, self._children_param_maps):
             # we subtract from total
             for param, value in child_terms(n).items():
-                mapped_param = self._parent_param_map(param_map(param))
-                parent_terms_mapped[mapped_param] -= value
-                assert parent_terms_mapped[mapped_param] >= 0
-                if parent_terms_mapped[mapped_param] == 0:
-                    parent_terms_mapped.pop(mapped_param)
-
+                mapped_param = param_map(param)
+                parent_terms_left[mapped_param] -= value
+                assert parent_terms_left[mapped_param] >= 0
+                if parent_terms_left[mapped_param] == 0:
+                    parent_terms_left.pop(mapped_param)
+        parent_terms_mapped: Terms = Counter()
+        for param, value in parent_terms_left.items():
+            parent_terms_mapped[self._parent_param_map(param)] += value
         return parent_terms_mapped
 
     def get_sub_objects(
